@@ -389,6 +389,7 @@ func (s *solo) sendReturn(a *peerA, spec *retSpec, iface bool) {
 		return
 	}
 	a.returned = true
+	a.retAfterFinish = a.finSeen
 	a.defer_ = false
 	a.retSpecUsed = spec
 	a.retRPC = spec.rpc
